@@ -681,16 +681,19 @@ def oracle_subjects(payload, info):
                 got_s = [x for x in items if x in info[3]]
                 if got_s != info[3]:
                     return "%s: a subscriber present throughout missed items: got %s of %s" % (kind, got_s, info[3])
+        # the subscriber that arrives while producers push is a LATE subscriber whatever the scenario is called
+        # (in `swap` that is subscriber 1): its hand-over race on Replay / BehaviorSubject is the known finding F14
+        tag = "%s late subscriber (%s scenario)" % (kind, mode) if (scen_mode == "swap" and u == 1 and kind != "plain") else "%s %s" % (kind, mode)
         # no duplicates of producer items, per-producer contiguous block in order
         for l in lists:
             want = [str(v) for v in l]
             got = [x for x in items if x in want]
             if len(got) != len(set(got)):
-                return "%s %s: an item was delivered twice: %s" % (kind, mode, items)
+                return "%s: an item was delivered twice: %s" % (tag, items)
             # contiguous block of the producer's program
             ok = any(got == want[a:a + len(got)] for a in range(len(want) + 1))
             if not ok:
-                return "%s %s: items of one producer arrived with a gap or out of order: %s" % (kind, mode, got)
+                return "%s: items of one producer arrived with a gap or out of order: %s" % (tag, got)
             if mode == "stable" and got != want:
                 return "%s: a subscriber present throughout missed items: got %s of %s" % (kind, got, want)
             if mode == "unsub" and got != want[:len(got)]:
